@@ -253,6 +253,9 @@ def run_case(case):
             boot.rng(case['seed'], 'C12', 'oddname', c, case['idx']).random() < 0.25:
         # the key field has a name that is not an identifier ('unit price', 'net-weight', 'growth %'): a name like any other
         odd = rng.choice(['unit price', 'net-weight', 'growth %'])
+        if not isinstance(key, str):
+            # a LIST of field names names fields literally, whatever characters the names contain
+            odd = rng.choice([odd, '2020', 'dc:title', 'address.city', 'tags[0]', 'k!r', '{k}'])
         for r in rows:
             r[odd] = r.pop('k')
         key = key.replace('{k', '{' + odd) if isinstance(key, str) else type(key)(odd if x == 'k' else x for x in key)
@@ -265,6 +268,17 @@ def run_case(case):
            'reverse': reverse, 'batch_size': batch}
     if c == 'nan_present':
         return run_nan(case, rows, key, reverse, batch, cfg, d, counters, cov, viol)
+    if boot.rng(case['seed'], 'C12', 'keyorder', c, case['idx']).random() < 0.15 and len(rows) > 1:
+        # the rows of a resource are mappings: the order in which a row lists its fields is not part of the row (a row
+        # function that rebuilds some rows lists them differently)
+        kr = boot.rng(case['seed'], 'C12', 'keyorder/rows', c, case['idx'])
+        for i_ in range(1, len(rows)):
+            if kr.random() < 0.5:
+                ks = list(rows[i_])
+                kr.shuffle(ks)
+                rows[i_] = {k_: rows[i_][k_] for k_ in ks}
+        cfg['rows_list_fields_in_varying_order'] = True
+        cov['regime']['rows_list_fields_in_varying_order'] = 1
     # reference: stable sort on the exact typed key
     asc = [r for _, r in sorted(enumerate(rows), key=lambda p: (tkey(p[1]), p[0]))]
     exp = list(reversed(asc)) if reverse else asc
